@@ -27,7 +27,7 @@ def validate_decoded(obj):
       "(accepted classes: int, gfapy.LastPos)")
 
 def validate_encoded(string):
-  if not re.match(r"^[0-9]+\$?$", string):
+  if not re.match(r"^[0-9]+\$?\Z", string):
     raise gfapy.FormatError(
       "{} is not a valid GFA2 position\n".format(repr(string))+
       "(it must be an unsigned integer eventually followed by a $)")
